@@ -20,8 +20,10 @@ def two_specs():
         aux = Grid.from_positions([20.0 + dx, 21.0 + dx, 22.0 + dx], [1.0, 2.0, 3.0, 4.0])
         lay = Layout({"traps": traps, "aux": aux}, {"traps"}, {"traps"}, {"aux"}, special_grid={"park": Grid.from_positions([-4.0 - dx, -2.0], [0.5, 1.5])})
         return ArchSpec(layout=lay, float_constants={"pitch": pitch}, int_constants={"rows": rows})
-    # C has the layout of A (equal grids, equal tables) and other constants
-    return {"A": mk(0.0, 2, 2.5), "B": mk(100.0, 3, 7.5), "C": mk(0.0, 3, 4.0)}
+    # C has the layout of A (equal grids, equal tables) and other constants; only B defines the constant "bonus"
+    out = {"A": mk(0.0, 2, 2.5), "B": mk(100.0, 3, 7.5), "C": mk(0.0, 3, 4.0)}
+    out["B"].float_constants["bonus"] = 9.5
+    return out
 
 
 SHARED = '''
@@ -78,6 +80,14 @@ def lib_raw(k: int):
 def lib_layer(k: int):
     lib_gate()
     return lib_rows(k)
+
+@move
+def lib_getter():
+    def zone_of():
+        return spec.get_static_trap(zone_id="traps")
+    def lookup():
+        return zone_of()
+    return lookup
 '''
 KERNELS = {
     "K1": "def K1():\n    lib_gate()\n    return lib_rows(0)\n",
@@ -86,10 +96,14 @@ KERNELS = {
     "K7": "def K7():\n    return lib_raw(1)\n",                                   # reaches a subroutine that was defined without folding
     "K5": "def K5():\n    lib_gate()\n    return lib_dyn(2)\n",
     "K4": "def K4():\n    return lib_layer(1)\n",
+    # a subroutine that hands out a closure which captured another closure doing the lookup
+    "K8": "def K8():\n    get = lib_getter()\n    z = get()\n    gate.local_rz(0.5, z)\n    return 8\n",
+    # a lookup only spec B can answer: under A and C it fails, whatever was compiled before
+    "K9": "def K9():\n    lib_gate()\n    gate.global_rz(spec.get_float_constant(constant_id=\"bonus\"))\n    return 9\n",
     "K3": "def K3():\n    from_way = spec.get_static_trap(zone_id=\"traps\")\n    move_by_waypoints(ilist.IList([from_way[0:2, 0:2], from_way[1:3, 0:2]]), True, True)\n    return lib_rows(2)\n",
 }
 KARGS = {"K6": (1.5,)}
-SHARED_NAMES = ["lib_gate", "lib_rows", "lib_park", "lib_layer", "lib_dyn", "lib_hopx", "lib_raw", "move_by_waypoints", "move_by_waypoints_kernel", "hop"]
+SHARED_NAMES = ["lib_gate", "lib_rows", "lib_park", "lib_layer", "lib_dyn", "lib_hopx", "lib_raw", "lib_getter", "move_by_waypoints", "move_by_waypoints_kernel", "hop"]
 
 
 SHARED_IDS = {}      # id(shared method of the current world) -> name
@@ -113,8 +127,22 @@ def ir_text(m):
             v = st.value.data
             v = getattr(v, "move_fn", v)
             if isinstance(v, ir.Method):
-                held.append(f"{v.sym_name}->{SHARED_IDS.get(id(v), 'NOT-THE-SHARED-METHOD')}")
+                held.append(f"{v.sym_name}->{SHARED_IDS.get(id(v), 'NOT-THE-SHARED-METHOD')}" + captured_text(v, 0))
     return buf.getvalue() + "\ncallees: " + ", ".join(callees) + "\nheld methods: " + ", ".join(held)
+
+
+def captured_text(v, depth):
+    """the code of the closures a held method captured (Method.fields), recursively: part of what the method does"""
+    from kirin import ir
+    from kirin.print import Printer
+    from rich.console import Console
+    out = ""
+    for f in getattr(v, "fields", ()) or ():
+        if isinstance(f, ir.Method) and depth < 4:
+            buf = io.StringIO()
+            f.print(Printer(console=Console(file=buf, force_terminal=False, no_color=True, width=400)))
+            out += f"\n  captured by {v.sym_name}: {buf.getvalue()}" + captured_text(f, depth + 1)
+    return out
 
 
 def log_text(st, evs, res):
@@ -213,7 +241,7 @@ def run(ctx):
     expect = expected_logs(specs)
     base = World(specs).shared_behaviour()
     for (k, sk), v in expect.items():
-        if v[0] != "ok":
+        if v[0] != "ok" and not (k == "K9" and sk != "B"):
             ctx.obligation(f"reference run of {k} under spec {sk} succeeds", False, str(v)[:200])
     if len({expect[("K1", "A")], expect[("K1", "B")]}) != 2:
         ctx.obligation("the two specs are distinguishable by the kernels", False)
@@ -242,9 +270,15 @@ def run(ctx):
     hists += [[("compile", "K1", "A"), ("compile", "K1", "B"), ("run", "K1")], [("compile", "K2", "B"), ("run", "K2"), ("compile", "K2", "A"), ("compile", "K1", "B")],
               # equal layouts, different constants; a kernel over a subroutine that was defined without folding
               [("compile", "K1", "A"), ("run", "K1"), ("compile", "K2", "C"), ("run", "K2"), ("compile", "K7", "C"), ("compile", "K7", "A")],
-              [("compile", "K7", "A"), ("run-shared",), ("compile", "K1", "C"), ("compile", "K6", "A")]]
+              [("compile", "K7", "A"), ("run-shared",), ("compile", "K1", "C"), ("compile", "K6", "A")],
+              # a shared subroutine handing out a closure that captured a looking-up closure, compiled against two specs in both orders
+              [("compile", "K8", "A"), ("run-shared",), ("compile", "K8", "B"), ("run", "K8")],
+              [("compile", "K8", "B"), ("compile", "K1", "A"), ("run", "K8"), ("compile", "K8", "A")],
+              # a constant only B defines, asked for by a kernel compiled with A / C after B has been used
+              [("compile", "K1", "B"), ("compile", "K9", "A"), ("run", "K9")],
+              [("compile", "K9", "B"), ("run", "K9"), ("compile", "K9", "C"), ("compile", "K2", "A")]]
     if ctx.quick:
-        hists = ctx.rng.sample(hists, 22) + hists[-4:]
+        hists = ctx.rng.sample(hists, 22) + hists[-8:]
     elif len(hists) > 700:
         # six kernels: every history of two compilations, and a sample of the histories of three
         two = [h for h in hists if sum(1 for x in h if x[0] == "compile") == 2]
@@ -267,9 +301,10 @@ def run(ctx):
 def store_model(ctx, hists):
     """replay the compile steps on Model.Store and let Coq predict which observations may change"""
     # method ids: 0 lib_gate, 1 lib_rows, 2 lib_park, 3 move_by_waypoints, 4 K1, 5 K2, 6 K3, 7 lib_layer, 8 K4, 9 lib_dyn, 10 K5 ; calls as in the sources
-    calls = {0: [], 1: [0], 2: [1], 3: [], 4: [0, 1], 5: [2, 0], 6: [3, 1], 7: [0, 1], 8: [7], 9: [], 10: [0, 9], 11: [], 12: [0, 11], 13: [0], 14: [13]}
-    kid = {"K1": 4, "K2": 5, "K3": 6, "K4": 8, "K5": 10, "K6": 12, "K7": 14}
-    init = clist([f"(mkmeth {cnat(i)} None {clist([cnat(c) for c in calls[i]])})" for i in range(15)])
+    calls = {0: [], 1: [0], 2: [1], 3: [], 4: [0, 1], 5: [2, 0], 6: [3, 1], 7: [0, 1], 8: [7], 9: [], 10: [0, 9], 11: [], 12: [0, 11], 13: [0], 14: [13],
+             15: [], 16: [15], 17: [0]}         # 15 lib_getter, 16 K8, 17 K9
+    kid = {"K1": 4, "K2": 5, "K3": 6, "K4": 8, "K5": 10, "K6": 12, "K7": 14, "K8": 16, "K9": 17}
+    init = clist([f"(mkmeth {cnat(i)} None {clist([cnat(c) for c in calls[i]])})" for i in range(18)])
     rows = []
     for h in hists[:40]:
         steps = clist([f"({cnat(kid[x[1]])}, {cnat({'A': 1, 'B': 2, 'C': 3}[x[2]])})" for x in h if x[0] == "compile"])
@@ -277,7 +312,7 @@ def store_model(ctx, hists):
     body = COQ_IMPORT + f"Definition st0 : store := {init}.\n"
     body += ("Definition row (steps : list (nat * nat)) : string :=\n"
              "  let st := fold_left (fun s c => compile s (fst c) (snd c)) steps st0 in\n"
-             "  (show_bool (shared_unchanged 4%nat st0 st && meth_eqb (nth 7 st0 dflt) (nth 7 st dflt) && meth_eqb (nth 9 st0 dflt) (nth 9 st dflt) && meth_eqb (nth 11 st0 dflt) (nth 11 st dflt) && meth_eqb (nth 13 st0 dflt) (nth 13 st dflt)) ++ show_bool (forallb (fun c => sees_only 12%nat st (fst c) (last_spec steps (fst c))) steps))%string.\n")
+             "  (show_bool (shared_unchanged 4%nat st0 st && meth_eqb (nth 7 st0 dflt) (nth 7 st dflt) && meth_eqb (nth 9 st0 dflt) (nth 9 st dflt) && meth_eqb (nth 11 st0 dflt) (nth 11 st dflt) && meth_eqb (nth 13 st0 dflt) (nth 13 st dflt) && meth_eqb (nth 15 st0 dflt) (nth 15 st dflt)) ++ show_bool (forallb (fun c => sees_only 12%nat st (fst c) (last_spec steps (fst c))) steps))%string.\n")
     body += "Eval vm_compute in (lines (map row " + clist(rows) + "))."
     ok, vals, log = coqrun.eval_lines(ctx.bdir, "store", body)
     if not ok or len(vals) != 1:
